@@ -29,7 +29,15 @@
 #define NET_FIXCAP_S
 #define NET_FIXCAP_F
 #endif
-#ifdef NET_FIXCAP_S
+#ifdef NET_SA_EXACT
+/* capacity of S fixed at NET_SA_EXACT records (functions that realloc S are proved per capacity) */
+#if NET_SA_EXACT == 0
+#define NET_ALLOC_S(ea, a) do { __CPROVER_assume((a) == 0); (ea)->buf = NULL; } while (0)
+#else
+#define NET_ALLOC_S(ea, a) do { __CPROVER_assume((a) == NET_SA_EXACT * sizeof(struct socketrec)); \
+	(ea)->buf = malloc(NET_SA_EXACT * sizeof(struct socketrec)); __CPROVER_assume((ea)->buf != NULL); } while (0)
+#endif
+#elif defined(NET_FIXCAP_S)
 #define NET_ALLOC_S(ea, a) do { __CPROVER_assume((a) == NS_Q * sizeof(struct socketrec)); \
 	(ea)->buf = malloc(NS_Q * sizeof(struct socketrec)); __CPROVER_assume((ea)->buf != NULL); } while (0)
 #else
